@@ -20,10 +20,14 @@ const (
 	Overrun   Outcome = 5 // blocks until the invocation's context is done (the action's timeout), then answers late
 	// WrongTypeErr: a response whose type differs from the declared one TOGETHER with a transient error.
 	WrongTypeErr Outcome = 6
+	// RespAndErr: a response of the DECLARED type together with a transient error (the error wins: the attempt failed).
+	RespAndErr Outcome = 7
+	// RespAndPermErr: the same with a permanent error.
+	RespAndPermErr Outcome = 8
 )
 
 func (o Outcome) String() string {
-	return [...]string{"ok", "ok-nil", "transient", "permanent", "wrong-type", "overrun", "wrong-type+error"}[o]
+	return [...]string{"ok", "ok-nil", "transient", "permanent", "wrong-type", "overrun", "wrong-type+error", "response+transient", "response+permanent"}[o]
 }
 
 // EngineSuccess reports whether the engine must treat the invocation as a successful attempt.
@@ -227,7 +231,7 @@ func (a *ActionSpec) FinalOutcome(from int) (invocations int, success bool) {
 		switch st.Out {
 		case OK, OKNil:
 			return invocations, true
-		case Permanent, WrongType, WrongTypeErr:
+		case Permanent, WrongType, WrongTypeErr, RespAndPermErr:
 			return invocations, false
 		}
 	}
